@@ -45,7 +45,8 @@ def run(cx):
                  ("R08c", "make(): chunks = merged list, scrlen computed from that same list"),
                  ("R08d", "no iteration over a container that the loop body grows (self-aliasing)"),
                  ("R08e", "public operations build their results only through the funnel"),
-                 ("R08f", "non-in-place operations return a fresh object (texts are mutable through +=)")):
+                 ("R08f", "non-in-place operations return a fresh object (texts are mutable through +=)"),
+                 ("R08g", "a list handed to CHText.make belongs to the text: the caller does not mutate it afterwards")):
         cx.rule(r, t)
     cht = cx.cls(REL, "CHText", "R08a")
     chunk = cx.cls(REL, "_CHTextChunk", "R08a")
@@ -180,6 +181,46 @@ def run(cx):
     # ------------------------------------------------------------------ R08e
     cx.guard(_r08e, cx, repo, cht, chunk)
     cx.guard(_r08f, cx, repo, cht)
+    cx.guard(make_ownership, cx, repo, "R08g")
+
+
+def make_ownership(cx, repo, rule):
+    """CHText.make(L) may keep L itself as the text's chunk list (_merge_chunks returns its argument when nothing merges).
+    So after `CHText.make(L)` the list L must not be mutated in place while the text may still be alive: from the call no
+    in-place mutation of L is reachable in the CFG without first re-binding L."""
+    from sa.cfg import CFG
+    n = 0
+    for m in repo.modules.values():
+        for f in [x for x in ast.walk(m.tree) if isinstance(x, FUNC)]:
+            calls = [c for c in walk_local(f) if isinstance(c, ast.Call) and dotted(c.func) in ("CHText.make", "cls.make") and len(c.args) == 1 and isinstance(c.args[0], ast.Name)]
+            if not calls:
+                continue
+            g = None
+            for c in calls:
+                L = c.args[0].id
+                muts, rebinds = [], []
+                for x in walk_local(f):
+                    if isinstance(x, ast.Call) and isinstance(x.func, ast.Attribute) and is_name(x.func.value, L) and x.func.attr in MUTATORS:
+                        muts.append(enclosing_stmt(x))
+                    elif isinstance(x, ast.Subscript) and isinstance(x.ctx, (ast.Store, ast.Del)) and is_name(x.value, L):
+                        muts.append(enclosing_stmt(x))
+                    elif isinstance(x, ast.AugAssign) and is_name(x.target, L):
+                        muts.append(x)
+                    elif isinstance(x, ast.Assign) and any(is_name(t, L) for t in x.targets):
+                        rebinds.append(x)
+                n += 1
+                if not muts:
+                    cx.ob(rule, c, True, f"`{L}` is not mutated in place in this function")
+                    continue
+                g = g or CFG(f)
+                start = g.node_of(enclosing_stmt(c))
+                mids = {g.node_of(s).id for s in muts if g.node_of(s) is not None}
+                rids = {g.node_of(s).id for s in rebinds if g.node_of(s) is not None}
+                path = g.reach_avoiding(start, mids, rids, follow_raise=False) if start is not None else None
+                cx.ob(rule, c, path is None, f"after make({L}) the list is re-bound before any further in-place change" if path is None else
+                      f"`{L}` is mutated in place at line {getattr(path[-1].ast, 'lineno', '?')} after being handed to CHText.make: when nothing merges the text keeps that very list, "
+                      f"so a text already returned / yielded changes under its consumer")
+    cx.at_least(rule, "CHText.make(<name>) call sites", n, 4)
 
 
 class _Wrap:
